@@ -51,6 +51,7 @@ type hSeg struct {
 	b      []byte
 	failed bool // the call returned an error
 	full   int  // length the caller asked to write
+	orig   []byte // the bytes the caller asked to write (before the fault cut them)
 }
 
 var errHFault = errors.New("harness pipe: write reported as failed (i/o timeout)")
@@ -99,7 +100,7 @@ func (q *hQueue) Write(p []byte) (int, error) {
 				}
 			}
 		}
-		q.segs = append(q.segs, hSeg{b: append([]byte{}, b...), failed: ferr != nil, full: len(p)})
+		q.segs = append(q.segs, hSeg{b: append([]byte{}, b...), failed: ferr != nil, full: len(p), orig: append([]byte{}, p...)})
 	}
 	q.buf = append(q.buf, b...)
 	q.log = append(q.log, b...)
